@@ -1,0 +1,52 @@
+//go:build verif
+
+package compiler
+
+import (
+	"bytes"
+	"go/token"
+
+	"github.com/gopherjs/gopherjs/internal/sourcemapx"
+)
+
+// VerifPosHint returns the encoded source map hint for a position, produced by
+// the real Hint.Pack/WriteTo (verification hook, build tag "verif").
+func VerifPosHint(pos token.Pos) []byte {
+	h := sourcemapx.Hint{}
+	if err := h.Pack(pos); err != nil {
+		panic(err)
+	}
+	buf := &bytes.Buffer{}
+	if _, err := h.WriteTo(buf); err != nil {
+		panic(err)
+	}
+	return buf.Bytes()
+}
+
+// VerifIdentHint returns the encoded source map hint for an identifier.
+func VerifIdentHint(name, originalName string, pos token.Pos) []byte {
+	h := sourcemapx.Hint{}
+	if err := h.Pack(sourcemapx.Identifier{Name: name, OriginalName: originalName, OriginalPos: pos}); err != nil {
+		panic(err)
+	}
+	buf := &bytes.Buffer{}
+	if _, err := h.WriteTo(buf); err != nil {
+		panic(err)
+	}
+	return buf.Bytes()
+}
+
+// VerifRemoveWhitespace exposes removeWhitespace.
+func VerifRemoveWhitespace(b []byte, minify bool) []byte {
+	return removeWhitespace(b, minify)
+}
+
+// VerifFilter creates a source map filter writing into w with the given file set;
+// callback receives every Go mapping the filter reports.
+func VerifFilter(w *bytes.Buffer, fset *token.FileSet, enable bool) *sourcemapx.Filter {
+	f := &sourcemapx.Filter{Writer: w, FileSet: fset}
+	if enable {
+		f.EnableMapping("out.js", "/goroot", "/gopath", false)
+	}
+	return f
+}
